@@ -26,7 +26,7 @@ func init() {
 				"consulted before the question-type gate, is keyed injectively by host, type, class and direction.",
 			NotCovered: "EQUALITY WITH THE SHA-256 SET MODEL (that Matches/Hashes return exactly the listed names' hashes) and THE PUBLIC-SUFFIX / FOUR-LABEL CUT of hashableSubdomains: " +
 				"hash and string computations outside static reach.",
-			Rules: map[string]string{"C11-R18": "setSafeBrowsing and setParental install every selected safety filter under its own switch (tables shared with C02-R26)", "C11-R19": "agdnet.NormalizeDomain lower-cases every ASCII letter of the name that is hashed (shared with C10-R12)", "C11-R17": "builder: the TXT matcher is created after the filters have registered their storages", "C11-R16": "hash-prefix result cache: collision check on the stored host (shared with C12-R6)", "C11-RC": "class rules (error chains, shadowed results, character classes, crossed arguments, pool constructors, array pools, loop completeness, loop-carried buffers, replacing setters, complete clones, Grow arithmetic, pooled-buffer escape, sorted searches, fresh decode targets, per-iteration objects, whole-message copies, codec guards) over the packages this property rests on", "C11-R15": "list sources are read through readers that fail at the size limit, never through one that cuts silently (shared with C13-R7)", "C11-R14": "hash-prefix result cache stores clones and hands out clones (shared with C07-R4)", "C11-R1": "question-type gates", "C11-R2": "prefix length table", "C11-R3": "refuse, not forward", "C11-R4": "digest split agreement",
+			Rules: map[string]string{"C11-R20": "pre-service middleware: a TXT question of any class is handled by respondWithHashes alone, every other question by the DNS check", "C11-R18": "setSafeBrowsing and setParental install every selected safety filter under its own switch (tables shared with C02-R26)", "C11-R19": "agdnet.NormalizeDomain lower-cases every ASCII letter of the name that is hashed (shared with C10-R12)", "C11-R17": "builder: the TXT matcher is created after the filters have registered their storages", "C11-R16": "hash-prefix result cache: collision check on the stored host (shared with C12-R6)", "C11-RC": "class rules (error chains, shadowed results, character classes, crossed arguments, pool constructors, array pools, loop completeness, loop-carried buffers, replacing setters, complete clones, Grow arithmetic, pooled-buffer escape, sorted searches, fresh decode targets, per-iteration objects, whole-message copies, codec guards) over the packages this property rests on", "C11-R15": "list sources are read through readers that fail at the size limit, never through one that cuts silently (shared with C13-R7)", "C11-R14": "hash-prefix result cache stores clones and hands out clones (shared with C07-R4)", "C11-R1": "question-type gates", "C11-R2": "prefix length table", "C11-R3": "refuse, not forward", "C11-R4": "digest split agreement",
 				"C11-R13": "(*Storage).Matches compares the digest with every suffix of its bucket (a range loop left early only by the hit); binary searches need a sorted-data discipline (shared rule, also run over bindtodevice's index as the positive instance)",
 				"C11-R7":  "hashprefix.Filter.FilterRequest: cache first; then the type gate; then every candidate name (host and parents) is matched in order until the first hit; a hit is answered with the replacement built for this request and cached under this request's key",
 				"C11-R11": "builder wiring of the three hash-prefix filters: each filter's ID, cache file, hash storage, list URL and target field belong to the same list (two lists never share a cache file or a storage)",
@@ -38,6 +38,9 @@ func init() {
 
 func runC11(c *an.Ctx) {
 	classSweep(c, "C11")
+	// ---- R20: every TXT question reaches the hash-prefix responder, whatever its class
+	c.Floor("C11-R20", 1)
+	c11PreserviceDispatch(c, "C11-R20")
 	// ---- R18: the safety filters a profile selected are all installed, each under its own switch (tables shared with C02-R26);
 	// R19: the name that is hashed is lower-cased over the whole ASCII range (shared with C10-R12)
 	c.Floor("C11-R18", 2)
@@ -1017,4 +1020,63 @@ func c11MatcherOrder(c *an.Ctx) {
 	}
 	c.Check(ok, "C11-R17", k+" builds the matcher after the storages are registered", fn.Pos(),
 		"both filter initialisations dominate NewMatcher", "NewMatcher is not preceded by both initAdultBlocking and initSafeBrowsing: it can be built from a map that is still empty")
+}
+
+// c11PreserviceDispatch holds the table of the pre-service middleware: every
+// TXT question, whatever its class, is handled by the hash-prefix responder
+// (which answers, refuses or passes on); every other question goes to the DNS
+// check and then down the pipeline.
+func c11PreserviceDispatch(c *an.Ctx, rule string) {
+	txt, _ := c.ConstInt("github.com/miekg/dns", "TypeTXT")
+	decide(c, rule, "dnssvc/internal/preservice.(*Middleware).Wrap$1", an.DecideCfg{
+		Dom: an.Domain{"ri.QType": an.Ints(1, txt, 28), "ri.QClass": an.Ints(1, 3, 255), "checkerr": an.Bools, "checkresp": an.Bools, "writeerr": an.Bools},
+		OnCall: func(it *an.Interp, name string, args []an.AV) (an.AV, bool) {
+			switch {
+			case strings.HasSuffix(name, "MustRequestInfoFromContext"):
+				return an.NonNil("ri"), true
+			case strings.HasSuffix(name, ").respondWithHashes"):
+				return an.Sym("hashes(" + strings.Join(avStrings(args[1:]), ",") + ")"), true
+			case strings.HasSuffix(name, ".Check"):
+				if it.Feature("checkerr").IsTrue() {
+					return an.AV{Kind: an.KTuple, Tup: []an.AV{an.Nil(), an.NonNil("checkErr")}}, true
+				}
+				if it.Feature("checkresp").IsTrue() {
+					return an.AV{Kind: an.KTuple, Tup: []an.AV{an.NonNil("checkResp"), an.Nil()}}, true
+				}
+				return an.AV{Kind: an.KTuple, Tup: []an.AV{an.Nil(), an.Nil()}}, true
+			case strings.HasSuffix(name, ".ServeDNS"):
+				return an.Sym("next"), true
+			case strings.HasSuffix(name, ".WriteMsg"):
+				if it.Feature("writeerr").IsTrue() {
+					return an.NonNil("writeErr"), true
+				}
+				return an.Nil(), true
+			case strings.HasSuffix(name, "errors.Annotate"):
+				return args[0], true
+			case name == "fmt.Errorf":
+				return an.NonNil("wrapped"), true
+			}
+			return an.AV{}, false
+		},
+		Expect: func(f an.Features, o an.AOutcome) string {
+			has := func(suffix string) bool {
+				for _, n := range o.Calls() {
+					if strings.HasSuffix(n, suffix) {
+						return true
+					}
+				}
+				return false
+			}
+			if f.I("ri.QType") == txt {
+				if !has(").respondWithHashes") || has(".Check") || has(".ServeDNS") {
+					return "a TXT question of any class is handled by respondWithHashes alone; calls: " + strings.Join(o.Calls(), ", ")
+				}
+				return ""
+			}
+			if has(").respondWithHashes") || !has(".Check") {
+				return "a question of another type goes to the DNS check; calls: " + strings.Join(o.Calls(), ", ")
+			}
+			return ""
+		},
+	})
 }
